@@ -60,7 +60,7 @@ Proof.
   intros F c fs k t f HU Hin Hf He.
   assert (G : exists r, In (CKw k r) (assign_el F fs (inr (k, t))) /\ verbatim r = Some t).
   { cbn [assign_el assign_kw]. rewrite Hf. destruct (fd_default f).
-    - exists (RKeep t). split; [|reflexivity]. destruct (is_unm t); [left; reflexivity|].
+    - exists (RKeep t). split; [|reflexivity]. destruct (has_unm t); [left; reflexivity|].
       unfold elt_eqb in He. rewrite He, HU. left. reflexivity.
     - exists (assign_tree F t (fd_val f)). split; [left; reflexivity|]. apply tree_equal_keeps_text; assumption. }
   destruct G as [r [Hr Hv]]. exists r. split; [|exact Hv].
@@ -82,7 +82,7 @@ Proof.
   destruct e as [t|[k t]]; cbn [assign_el assign_kw]; unfold assign_pos; [rewrite HF; reflexivity|].
   destruct (find_field k fs) as [f|]; [|rewrite HF; reflexivity].
   destruct (fd_default f).
-  - destruct (is_unm t); [reflexivity|]. rewrite HF, HU. destruct (val_eqb (eval t) (fd_val f)); reflexivity.
+  - destruct (has_unm t); [reflexivity|]. rewrite HF, HU. destruct (val_eqb (eval t) (fd_val f)); reflexivity.
   - cbn [map]. rewrite tree_noflags_identity by assumption. reflexivity.
 Qed.
 
@@ -106,7 +106,7 @@ Proof.
       assert (K : i = CKw k (RKeep t) -> exists t0, In (k, t0) (c_kws c) /\ eval_r (RKeep t) = eval t0) by (intros _; exists t; split; [exact Hx|reflexivity]).
       destruct (find_field k fs) as [f|]; [|rewrite HF in Hi; destruct Hi as [<-|[]]; exists t; split; [exact Hx|reflexivity]].
       destruct (fd_default f).
-      + destruct (is_unm t); [destruct Hi as [<-|[]]; exists t; split; [exact Hx|reflexivity]|].
+      + destruct (has_unm t); [destruct Hi as [<-|[]]; exists t; split; [exact Hx|reflexivity]|].
         rewrite HF in Hi. destruct (val_eqb (eval t) (fd_val f)); [destruct (f_update F); [destruct Hi|]|];
           destruct Hi as [<-|[]]; exists t; (split; [exact Hx|reflexivity]).
       + destruct Hi as [<-|[]]. exists t. split; [exact Hx|]. apply tree_nofix_value. exact HF. }
@@ -203,7 +203,7 @@ Proof.
     + destruct x as [k t]. cbn [assign_el assign_kw] in Hi. specialize (Hwf k t Hx). specialize (Hmk k t Hx).
       destruct (find_field k fs) as [f|] eqn:Ef; [|congruence]. destruct (find_field_in k fs f Ef) as [Hin Hn].
       destruct (fd_default f).
-      * rewrite (managed_not_unm t Hmk) in Hi. rewrite HF in Hi. destruct (val_eqb (eval t) (fd_val f)) eqn:Ev; [|destruct Hi].
+      * rewrite (managed_no_unm t Hmk) in Hi. rewrite HF in Hi. destruct (val_eqb (eval t) (fd_val f)) eqn:Ev; [|destruct Hi].
         destruct (f_update F); [destruct Hi|]. destruct Hi as [<-|[]]. exists f. split; [exact Hin|]. split; [exact Hn|].
         cbn [eval_r]. apply val_eqb_eq. exact Ev.
       * destruct Hi as [<-|[]]. exists f. split; [exact Hin|]. split; [exact Hn|]. apply tree_fix_value; assumption.
@@ -230,7 +230,7 @@ Lemma assign_el_names : forall F fs e x, In x (kw_names (assign_el F fs e)) -> m
 Proof.
   intros F fs [t|[k t]] x; cbn [assign_el assign_kw]; unfold assign_pos.
   - destruct (f_fix F); cbn; tauto.
-  - destruct (find_field k fs) as [f|]; [destruct (fd_default f); [destruct (is_unm t); [|destruct (val_eqb (eval t) (fd_val f)); [destruct (f_update F)|destruct (f_fix F)]]|]|destruct (f_fix F)];
+  - destruct (find_field k fs) as [f|]; [destruct (fd_default f); [destruct (has_unm t); [|destruct (val_eqb (eval t) (fd_val f)); [destruct (f_update F)|destruct (f_fix F)]]|]|destruct (f_fix F)];
       cbn; intros H; try tauto; destruct H as [<-|[]]; reflexivity.
 Qed.
 
@@ -251,7 +251,7 @@ Proof.
     rewrite E. cbn [app]. clear E. induction (c_kws c) as [|[k t] r IH]; [constructor|].
     cbn [map fst] in Hnk. inversion Hnk as [|? ? Hni Hnk']; subst. cbn [map flat_map]. rewrite kw_names_app.
     apply NoDup_app_intro; [| exact (IH Hnk') |].
-    + cbn [assign_el assign_kw]. destruct (find_field k fs) as [f|]; [destruct (fd_default f); [destruct (is_unm t); [|destruct (val_eqb (eval t) (fd_val f)); [destruct (f_update F)|destruct (f_fix F)]]|]|destruct (f_fix F)];
+    + cbn [assign_el assign_kw]. destruct (find_field k fs) as [f|]; [destruct (fd_default f); [destruct (has_unm t); [|destruct (val_eqb (eval t) (fd_val f)); [destruct (f_update F)|destruct (f_fix F)]]|]|destruct (f_fix F)];
         cbn; repeat constructor; intros [].
     + intros x Hx Hy. apply assign_el_names in Hx. subst x. apply Hni.
       unfold kw_names in Hy. apply in_flat_map in Hy. destruct Hy as [it [Hit Hk]]. apply in_flat_map in Hit. destruct Hit as [e [He Hit]].
@@ -283,7 +283,7 @@ Proof.
   intros F fs [t|[k t]]; cbn [assign_el assign_kw]; unfold assign_pos.
   - destruct (f_fix F); cbn; [apply subseq_nil_l|rewrite app_nil_r; apply subseq_refl].
   - assert (K : subseq (result_unms [CKw k (RKeep t)]) (unms t)) by (cbn; rewrite app_nil_r; apply subseq_refl).
-    destruct (find_field k fs) as [f|]; [destruct (fd_default f); [destruct (is_unm t); [|destruct (val_eqb (eval t) (fd_val f)); [destruct (f_update F)|destruct (f_fix F)]]|]|destruct (f_fix F)];
+    destruct (find_field k fs) as [f|]; [destruct (fd_default f); [destruct (has_unm t); [|destruct (val_eqb (eval t) (fd_val f)); [destruct (f_update F)|destruct (f_fix F)]]|]|destruct (f_fix F)];
       try exact K; try (cbn; apply subseq_nil_l).
     unfold result_unms. cbn [flat_map item_tree]. rewrite app_nil_r. unfold assign_tree. apply assign_unmanaged_subsequence.
 Qed.
@@ -311,8 +311,18 @@ Theorem call_unmanaged_kw_kept : forall F c fs k t, In (k, t) (c_kws c) -> is_un
 Proof.
   intros F c fs k t Hin Hu Hf. unfold call_result. apply (in_cplace_el F _ fs (inr (k, t))).
   - unfold elements. apply in_or_app. right. apply in_map. exact Hin.
-  - cbn [assign_el assign_kw]. destruct (find_field k fs) as [f|]; [|congruence]. destruct (fd_default f); [rewrite Hu; left; reflexivity|].
+  - cbn [assign_el assign_kw]. destruct (find_field k fs) as [f|]; [|congruence]. assert (Hh : has_unm t = true) by (destruct t; try discriminate; reflexivity). destruct (fd_default f); [rewrite Hh; left; reflexivity|].
     left. f_equal. unfold assign_tree. rewrite assign_S. destruct t as [z c0|i z|k0 l]; try discriminate. destruct (fd_val f); reflexivity.
+Qed.
+
+(* ... and an argument that HOLDS a user-controlled part anywhere is never deleted because its field now holds the default (update deletes keyword
+   arguments that spell out a default: not these) *)
+Theorem call_kw_holding_unmanaged_kept : forall F c fs k t f, In (k, t) (c_kws c) -> has_unm t = true -> find_field k fs = Some f -> fd_default f = true ->
+  In (CKw k (RKeep t)) (call_result F c fs).
+Proof.
+  intros F c fs k t f Hin Hu Hf Hd. unfold call_result. apply (in_cplace_el F _ fs (inr (k, t))).
+  - unfold elements. apply in_or_app. right. apply in_map. exact Hin.
+  - cbn [assign_el assign_kw]. rewrite Hf, Hd, Hu. left. reflexivity.
 Qed.
 
 (* ------------------------------------------------------------------------- the deviation recorded as finding F-41 *)
